@@ -359,10 +359,22 @@ func (c *xsyncMapOf[K, V]) DeleteExpired() {
 	c.items.Range(func(k K, v itemOf[V]) bool {
 		i := v
 		if i.expiredWithNow(now) {
-			c.items.Delete(k)
-			if ec != nil {
-				evictedItems = append(evictedItems, kvOf[K, V]{k, i.v})
-			}
+			// The entry was expired when Range saw it, but it may have been replaced
+			// since: re-check and delete under the bucket lock, and report the value
+			// that is actually removed.
+			c.items.Compute(k, func(value itemOf[V], loaded bool) (itemOf[V], bool) {
+				if loaded {
+					if !value.expiredWithNow(now) {
+						// k has a new value
+						return value, false
+					}
+					if ec != nil {
+						evictedItems = append(evictedItems, kvOf[K, V]{k, value.v})
+					}
+				}
+				// delete
+				return value, true
+			})
 		}
 		return true
 	})
